@@ -101,7 +101,10 @@ func c12Pow2Exact(m *big.Int, k int64, n int) (ex model.X, ok bool) {
 // genC12Pow2Near constructs the literal: precision P, a P-digit number R, a binary exponent k, a side and a
 // closeness c: m = R * 10^j / 2^k rounded down or up to an integer of about P + c digits, so that m * 2^k is R * 10^j
 // times (1 -+ 10^-(P+c)).
-func genC12Pow2Near(t *rapid.T) C12Case {
+func genC12Pow2Near(t *rapid.T) C12Case { return genPow2Near(t, 0) }
+
+// genPow2Near: maxK > 0 keeps |k| within 300..maxK (for callers whose reference builds the exact expansion).
+func genPow2Near(t *rapid.T, maxK int) C12Case {
 	c := C12Case{Kind: "pow2near", M: h.GenMode(t, "zmode"), Base: rapid.SampledFrom([]int{0, 10}).Draw(t, "base")}
 	c.Entry = rapid.SampledFrom([]string{"parse", "parse", "setstring", "unmarshaltext", "parsedecimal", "scan"}).Draw(t, "entry")
 	P := rapid.IntRange(1, 12).Draw(t, "p")
@@ -120,6 +123,9 @@ func genC12Pow2Near(t *rapid.T) C12Case {
 		k = int64(rapid.IntRange(1<<22, 1<<30).Draw(t, "k"))
 	default:
 		k = int64(rapid.IntRange(1<<30, math.MaxInt32-200).Draw(t, "k"))
+	}
+	if maxK > 0 {
+		k = int64(rapid.IntRange(300, maxK).Draw(t, "kbounded"))
 	}
 	if rapid.Bool().Draw(t, "kneg") {
 		k = -k
